@@ -8,6 +8,8 @@
      priority_of        property.py:378        newpriority = self._normalize(new['literalpriority'])
      uritokenvalue      util.py:271-286        (after fix 7eb8545: content starts after the first paren)
      urivalue           helper.py:123-134
+   util.Base._normalizeatkeyword (commit a785d04, the key CSSRule._setAtkeyword and the @media dispatch compare) is
+   normalize after unicodesub = Tokenizer.normalize_u; the harness ties the two on every at-keyword case.
    Definitions only; proofs are in RespellFacts.v.                                          *)
 From CssV Require Import Base Regex Gen.TokTables Gen.PyTables Tokenizer Quote Gen.Quote.
 
